@@ -7,6 +7,29 @@
 use std::fs;
 use std::path::Path;
 
+/// Replace the identifier `name` (whole word) in `line` by `with`.
+fn replace_word(line: &str, name: &str, with: &str) -> String {
+    let bytes = line.as_bytes();
+    let mut out = String::new();
+    let mut i = 0;
+    while i < line.len() {
+        if line[i..].starts_with(name) {
+            let before_ok = i == 0 || !(bytes[i - 1].is_ascii_alphanumeric() || bytes[i - 1] == b'_');
+            let j = i + name.len();
+            let after_ok = j >= line.len() || !(bytes[j].is_ascii_alphanumeric() || bytes[j] == b'_');
+            if before_ok && after_ok {
+                out.push_str(with);
+                i = j;
+                continue;
+            }
+        }
+        let ch = line[i..].chars().next().unwrap();
+        out.push(ch);
+        i += ch.len_utf8();
+    }
+    out
+}
+
 fn transform(src: &str) -> Option<String> {
     // drop the #[cfg(test)] module at the end (it names std::sync::Mutex again)
     let body = match src.find("#[cfg(test)]\nmod tests") {
@@ -17,17 +40,38 @@ fn transform(src: &str) -> Option<String> {
     let mut replaced = 0;
     for line in body.lines() {
         let t = line.trim_start();
-        if t.starts_with("use ") && line.contains("sync::Mutex") {
-            // keep every other name of the use line, take Mutex from the shim
-            let rest = line.replace("sync::Mutex", "sync::Mutex as __StdMutexNotUsed");
+        // `use std::sync::Mutex;`, `use std::{error::Error, sync::Mutex};`, `use std::sync::{Arc, Mutex, RwLock};`
+        // (std only: tokio's async locks have another API and are left alone)
+        let is_std_sync_use = (t.starts_with("use std::") || t.starts_with("pub use std::")) && t.contains("sync") && (t.contains("Mutex") || t.contains("RwLock"));
+        if is_std_sync_use {
+            let mut rest = line.to_string();
+            let indent: String = line.chars().take_while(|c| c.is_whitespace()).collect();
+            let mut extra = String::new();
+            if t.contains("Mutex") {
+                rest = replace_word(&rest, "Mutex", "Mutex as __StdMutexNotUsed");
+                extra.push_str(&format!("{indent}#[allow(unused_imports)]\n{indent}use crate::threads::shim::Mutex;\n"));
+            }
+            if t.contains("RwLock") {
+                rest = replace_word(&rest, "RwLock", "RwLock as __StdRwLockNotUsed");
+                extra.push_str(&format!("{indent}#[allow(unused_imports)]\n{indent}use crate::threads::shim::RwLock;\n"));
+            }
             out.push_str(&rest);
             out.push('\n');
-            let indent: String = line.chars().take_while(|c| c.is_whitespace()).collect();
-            out.push_str(&format!("{indent}#[allow(unused_imports)]\n{indent}use crate::threads::shim::Mutex;\n"));
+            out.push_str(&extra);
             replaced += 1;
         } else {
-            // the reqwest transport of the HTTP clients becomes the simulated one (sim/src/simhttp.rs)
-            out.push_str(&line.replace("crate::", "rotala::").replace("reqwest::Client", "crate::simhttp::Client"));
+            // fully qualified uses, the crate's own paths, and the reqwest transport of the HTTP clients
+            // (which becomes the simulated one, sim/src/simhttp.rs)
+            let l = line
+                .replace("std::sync::Mutex", "crate::threads::shim::Mutex")
+                .replace("std::sync::RwLock", "crate::threads::shim::RwLock")
+                .replace("crate::", "rotala::")
+                .replace("rotala::threads::shim::", "crate::threads::shim::")
+                .replace("reqwest::Client", "crate::simhttp::Client");
+            if l != line && (line.contains("std::sync::Mutex") || line.contains("std::sync::RwLock")) {
+                replaced += 1;
+            }
+            out.push_str(&l);
             out.push('\n');
         }
     }
